@@ -76,6 +76,37 @@ CLAIMED["C09"] = dict(
          "table theorem (a dropped conversion changes the generated table and breaks the proof; the sweep then supplies the failing input).",
     technique="translator-regenerated call-site tables + forallb/vm_compute proof; PrimFloat model bit-exact correspondence; equivariance sweep",
     design="5 C09")
+CLAIMED["C04"] = dict(
+    text="Proof: the public operations are modelled as a state machine over a store of live objects in which every result returns through a constructor exactly as pynapple's "
+         "wrappers do; for EVERY operation, index, mask, size and threshold the produced object is well formed (sorted timestamps, each inside the closed intervals of a canonical "
+         "support), hence every object reachable by any finite operation sequence is (induction over fold_left); the constructors' final restriction is proved to lose nothing for "
+         "positive-span construction, restrict, get and threshold. Tie: 500 (quick) / 5000 (thorough) random histories executed on the extracted state machine and on the real "
+         "objects with abstract states compared after every step, plus the well-formedness oracle (incl. one row per timestamp, rate = n/duration, TsGroup members on the group "
+         "support) on every object produced by 16 modelled and 25 unmodelled operation kinds.",
+    note="Trusted: Coq kernel; Model/Store.v (data values abstracted: threshold/dropna take the kept mask) tied by history correspondence; operations outside the model "
+         "(bin_average, interpolate, convolve, smooth, numpy functions, concatenate/split, to_tsd/to_tsgroup, merge, randomisation, perievent, indexing) are covered by the oracle only.",
+    technique="Coq invariant proof over a state machine (Inv init, Inv preserved, lifted over fold_left) + history correspondence with the extracted model",
+    design="5 C04")
+CLAIMED["C16"] = dict(
+    text="Proof (all closed): the correlogram kernel's sliding-window counts equal, for all sorted trains and positive bin/window sizes, the histogram of all pairwise lags in "
+         "half-open bins centred on the multiples of binsize inside the window (bins tile, none counted twice), autocorrelogram zero at lag 0, normalisation as exact rationals; "
+         "compute_perievent returns per reference time exactly the lags of the samples with r-w0 <= t < r+w1, in order, tagged r; compute_perievent_continuous' cursor search finds "
+         "the nearest sample of the same epoch for every event, and kernel + (size, offset)-grouped scatter put in column j, row o the sample o steps from it, NaN exactly outside "
+         "the epoch; the pre-repair size-only scatter is refuted by theorem.",
+    note="Trusted: Coq kernel; models Model/Correlogram.v, Model/Perievent.v tied by extracted-model correspondence (kernel space complete on the dyadic lattice incl. lags on bin "
+         "edges, compiled and .py_func) and by statement oracles on the public API; NumPy contracts for searchsorted/unique/arange; decimal bin-edge coincidences float_ambiguous. "
+         "Known finding: compute_perievent on TsdFrame/TsdTensor raises.",
+    technique="Coq proofs over executable Gallina models (zipper cursor, doubled-tick bounds, Q normalisation) + extracted-model/implementation correspondence",
+    design="5 C16")
+CLAIMED["C18"] = dict(
+    text="Proof: for all signals, kernels (any length/parity), trim modes and canonical supports the model of per-epoch convolution gives on every interval exactly the full "
+         "convolution of that interval's samples trimmed on the requested side; the output is independent of all other intervals, bilinear, one row per timestamp with columns kept; "
+         "windowed-sinc LP+HP and BP+BS sum to the input for every odd kernel. PARTIAL for Butterworth: independence, time axis and linearity follow for any length-preserving (for "
+         "linearity: linear) per-slice routine F standing for sosfiltfilt (visible premises len_pres F, lin_op F).",
+    note="Trusted: Coq kernel; Model/Convolve.v tied by exact correspondence on a completely enumerated small space + seeded random cases; scipy.signal.convolve taken as direct full "
+         "convolution; sosfiltfilt an oracle; real-valued kernels and Butterworth linearity to 1e-9.",
+    technique="Coq proofs (bilinearity, trim arithmetic, fold/splice invariants, delta-kernel identity) + extracted-model/implementation correspondence",
+    design="5 C18")
 REASON_TODO = "check not built yet in this round (planned: DESIGN.md section 5)"
 m = {
     "version": 1,
